@@ -38,7 +38,11 @@ type Case struct {
 	Revoke2    bool `json:"revoke_twice,omitempty"`
 	// Generate: a further task - the target client generates ANOTHER code (CreateConnectionCode for the same
 	// target client: counts and lists its codes, may housekeep old ones) while the first code is activated / revoked
-	Generate  bool   `json:"generate_another_code,omitempty"`
+	Generate bool `json:"generate_another_code,omitempty"`
+	// Persistent: hybrid with a persistent tier (EnablePersistent); mapping records are then counted in every tier.
+	Persistent bool `json:"persistent,omitempty"`
+	// CodeTTL: the code's activation TTL in seconds (0 = one hour)
+	CodeTTL   int    `json:"code_ttl_s,omitempty"`
 	Cluster   bool   `json:"cluster"`     // two nodes, each with its own hybrid store + node-local cache over one shared cache tier
 	Gran      string `json:"granularity"` // which tier operations are scheduling points: code | shared | all
 	QuotaFull int    `json:"quota_full"`  // index of an activator whose listen client is already at its mapping quota (-1 none)
@@ -121,8 +125,16 @@ func expirePointMatches(point, op, key string) bool {
 
 var expirePoints = []string{"claim", "idmark", "mapping", "index", "code"}
 
+// codeTTLs: remaining activation time of the code (seconds): minutes, just below / above one hour, hours, a day
+var codeTTLs = []int{600, 3540, 3660, 7200, 86400}
+
 func granSel(gran string) func(string) bool {
 	switch gran {
+	case "code+mapping":
+		// the code record family and the mapping records
+		return func(k string) bool {
+			return strings.HasPrefix(k, "tunnox:runtime:conncode:") || strings.HasPrefix(k, pmPrefix)
+		}
 	case "code":
 		// only operations on the code record (and anything else stored next to it)
 		return func(k string) bool { return strings.HasPrefix(k, "tunnox:runtime:conncode:") }
@@ -203,11 +215,14 @@ func runConcurrent(c Case, choose func(int, []string) int) outcome {
 		}
 		return true
 	}
-	w := newWorldWith(nNodes, &services.ConnectionCodeServiceConfig{MaxActiveCodesPerClient: 10, MaxActiveMappingsPerClient: max}, true, sel, c.Cluster)
+	w := newWorldWith(nNodes, &services.ConnectionCodeServiceConfig{MaxActiveCodesPerClient: 10, MaxActiveMappingsPerClient: max}, true, sel, c.Cluster, c.Persistent)
 	defer w.close()
 	var o outcome
 	// ---- set-up (ungated) --------------------------------------------------------
 	ttl := time.Hour
+	if c.CodeTTL > 0 {
+		ttl = time.Duration(c.CodeTTL) * time.Second
+	}
 	if c.ExpirePoint != "" {
 		ttl = expiryTTL
 	}
@@ -248,6 +263,12 @@ func runConcurrent(c Case, choose func(int, []string) int) outcome {
 	if c.TierFail > 0 {
 		w.g.FailAt = c.TierFail - 1
 		w.g.FailFilter = func(s vkit.Step, write bool) bool {
+			if strings.HasPrefix(s.Op, "pers.") {
+				return false
+			}
+			if c.Persistent && strings.HasPrefix(s.Key, pmPrefix) {
+				return write // with a persistent tier the facade must cope with a failed CACHE write of the mapping record
+			}
 			return write && strings.HasPrefix(s.Key, "tunnox:runtime:conncode:")
 		}
 		c.FailAt = -1
@@ -301,6 +322,7 @@ func runConcurrent(c Case, choose func(int, []string) int) outcome {
 	if w.g.Stalls > 0 {
 		vkit.AddExtra("gate_stalls", int64(w.g.Stalls))
 	}
+	noteStalls(w.g.Stalls)
 	// ---- measures from the gate log ---------------------------------------------
 	codeKey := "tunnox:runtime:conncode:code:" + code.Code
 	for i, s := range o.log {
@@ -404,6 +426,12 @@ func runConcurrent(c Case, choose func(int, []string) int) outcome {
 		prog += "/cluster"
 	} else if c.SecondNode {
 		prog += "/2nodes"
+	}
+	if c.Persistent {
+		prog += "/persistent"
+	}
+	if c.CodeTTL > 0 {
+		prog += fmt.Sprintf("/ttl=%ds", c.CodeTTL)
 	}
 	if c.QuotaFull >= 0 {
 		prog += "/quota-full"
@@ -613,7 +641,7 @@ func recStr(c *models.TunnelConnectionCode) string {
 }
 
 func sigOf(c Case, o outcome) string {
-	return fmt.Sprintf("%d|%v%v%v|%v|%v|%v|%s|%d|%s|%s|%s", c.NAct, c.Revoke, c.Revoke2, c.Generate, c.SameClient, c.SecondNode, c.Cluster, c.Gran, c.QuotaFull, o.failedOp, c.ExpirePoint, normSteps(o.log))
+	return fmt.Sprintf("%v%d|%d|%v%v%v|%v|%v|%v|%s|%d|%s|%s|%s", c.Persistent, c.CodeTTL, c.NAct, c.Revoke, c.Revoke2, c.Generate, c.SameClient, c.SecondNode, c.Cluster, c.Gran, c.QuotaFull, o.failedOp, c.ExpirePoint, normSteps(o.log))
 }
 
 func report(t vkit.TB, c Case, o outcome) {
@@ -749,6 +777,8 @@ func spaces() []space {
 	sc := func(c Case) Case { c.SameClient = true; return c }
 	r2 := func(c Case) Case { c.Revoke2 = true; return c }
 	gn := func(c Case) Case { c.Generate = true; return c }
+	pz := func(c Case) Case { c.Persistent = true; return c }
+	tl := func(sec int, c Case) Case { c.CodeTTL = sec; return c }
 	return []space{
 		// code-record granularity: 3 scheduling points per task
 		{mk(2, false, false, "code", -1), 1, 1 << 30, false},              // 20 schedules
@@ -757,6 +787,17 @@ func spaces() []space {
 		{mk(3, false, true, "code", -1), 2, 1 << 30, false},               // 1680
 		{mk(2, false, false, "code", 0), 1, 1 << 30, false},               // quota-full activator races a valid one
 		{mk(3, true, false, "code", -1), 3, vkit.Pick(400, 60000), false}, // 369600: capped
+		// the code's remaining activation time: minutes ... a day
+		{tl(600, mk(2, false, false, "code", -1)), 1, 1 << 30, false},
+		{tl(3540, mk(2, true, false, "code", -1)), 2, 1 << 30, false},
+		{tl(3660, mk(2, false, false, "code", -1)), 1, 1 << 30, false},
+		{tl(7200, cl(mk(2, false, false, "code", -1))), 1, 1 << 30, false},
+		{tl(7200, mk(1, true, false, "code", -1)), 1, 1 << 30, false},
+		{tl(86400, sc(mk(2, true, false, "code", -1))), 2, 1 << 30, false},
+		// hybrid with a persistent tier
+		{pz(mk(2, false, false, "code", -1)), 1, 1 << 30, false},
+		{pz(cl(mk(2, true, false, "code", -1))), 2, 1 << 30, false},
+		{pz(mk(2, false, false, "code+mapping", -1)), 3, vkit.Pick(300, 1<<30), false},
 		// the target client generates another code meanwhile
 		{gn(mk(1, true, false, "code", -1)), 2, 1 << 30, false},
 		{gn(cl(mk(1, true, false, "code", -1))), 2, 1 << 30, false},
@@ -809,6 +850,12 @@ func TestExhaustive(t *testing.T) {
 		} else if s.c.SecondNode {
 			name += "/2nodes"
 		}
+		if s.c.Persistent {
+			name += "/persistent"
+		}
+		if s.c.CodeTTL > 0 {
+			name += fmt.Sprintf("/ttl=%ds", s.c.CodeTTL)
+		}
 		if s.c.QuotaFull >= 0 {
 			name += "/quota-full"
 		}
@@ -835,6 +882,11 @@ func TestFaultEnumeration(t *testing.T) {
 		{Case{Mode: "concurrent", NAct: 2, Gran: "code", QuotaFull: -1, Cluster: true}, true},
 		{Case{Mode: "concurrent", NAct: 1, Revoke: true, Gran: "code", QuotaFull: -1, Cluster: true}, true},
 		{Case{Mode: "concurrent", NAct: 2, Gran: "code", QuotaFull: -1}, true},
+		// persistence enabled: a failed CACHE write of the mapping record (or of a code/claim key)
+		{Case{Mode: "concurrent", NAct: 1, Gran: "code+mapping", QuotaFull: -1, Persistent: true}, true},
+		{Case{Mode: "concurrent", NAct: 1, Gran: "code+mapping", QuotaFull: -1, Persistent: true, Cluster: true}, true},
+		{Case{Mode: "concurrent", NAct: 2, Gran: "code+mapping", QuotaFull: -1, Persistent: true, Cluster: true}, true},
+		{Case{Mode: "concurrent", NAct: 1, Gran: "all", QuotaFull: -1, Persistent: true}, false},
 	} {
 		base := fb.c
 		complete := true
@@ -871,7 +923,7 @@ func TestFaultEnumeration(t *testing.T) {
 				dead = failAt
 			}
 		}
-		vkit.Exhaustive(fmt.Sprintf("single-write-fault x schedules:%dA/rev=%v/2nodes=%v/cluster=%v/gran=%s/tier-level=%v", base.NAct, base.Revoke, base.SecondNode, base.Cluster, base.Gran, fb.tier), complete)
+		vkit.Exhaustive(fmt.Sprintf("single-write-fault x schedules:%dA/rev=%v/2nodes=%v/cluster=%v/gran=%s/tier-level=%v/persistent=%v", base.NAct, base.Revoke, base.SecondNode, base.Cluster, base.Gran, fb.tier, base.Persistent), complete)
 	}
 	vkit.AddExtra("fault_enum_runs", int64(total))
 }
@@ -925,10 +977,17 @@ func TestRandomSchedules(t *testing.T) {
 		}
 		c.Revoke2 = c.Revoke && rapid.IntRange(0, 3).Draw(t, "revokeTwice") == 0
 		c.Generate = rapid.IntRange(0, 2).Draw(t, "generateAnotherCode") == 0
+		c.Persistent = rapid.IntRange(0, 3).Draw(t, "persistentTier") == 0
+		c.CodeTTL = rapid.SampledFrom(append([]int{0, 0}, codeTTLs...)).Draw(t, "codeTTLSeconds")
 		if rapid.IntRange(0, 3).Draw(t, "tierFaultInsteadOfFacadeFault") == 0 {
 			c.FailAt, c.TierFail = -1, rapid.IntRange(1, 8).Draw(t, "tierFail")
+			if c.Persistent {
+				c.Gran = rapid.SampledFrom([]string{"code+mapping", "all"}).Draw(t, "granWithMappingRecords")
+			}
 		}
-		if rapid.IntRange(0, 13).Draw(t, "expiresInFlight") == 0 {
+		// (not combined with a swallowed cache-write failure on a persistent world: the roll-back's read then misses
+		// the cache and hybrid's asynchronous write-back can resurrect the deleted record - C14's finding)
+		if rapid.IntRange(0, 13).Draw(t, "expiresInFlight") == 0 && !(c.Persistent && c.TierFail > 0) {
 			c.ExpirePoint = rapid.SampledFrom(expirePoints).Draw(t, "expirePoint")
 		}
 		c.Picks = rapid.SliceOfN(rapid.IntRange(0, 3), 0, 60).Draw(t, "picks")
